@@ -4,7 +4,7 @@ CONSTANTS
   Soc0s <- SocAll
   Dts <- Dt3
   Engs <- Bools
-  ClsOn <- ConvCls
+  ClsOn <- QC_On
   ClsOff <- QC_Off
   Depth = 3
 INVARIANT L1
